@@ -51,3 +51,17 @@ impl LuaIndex for LuaDependencyIndex {
         self.dependencies.clear();
     }
 }
+
+#[cfg(emmyluals_emmylua_analyzer_rust_verif)]
+impl LuaDependencyIndex {
+    /// Verification hook: entry counts of every container of this index.
+    pub fn verif_sizes(&self) -> Vec<(&'static str, usize)> {
+        vec![
+            ("dependencies", self.dependencies.len()),
+            (
+                "dependencies/items",
+                self.dependencies.values().map(|v| v.len()).sum(),
+            ),
+        ]
+    }
+}
